@@ -1,8 +1,9 @@
 #!/bin/sh
 # tools/sweep.sh <seed> <tier> [ids...] — runs the registered checks one after another; one line per check.
 SEED=${1:-1}; TIER=${2:-quick}; shift 2 2>/dev/null
-IDS=${*:-$(python3 -c "import json;print(' '.join(c['property_id'] for c in json.load(open('/verif/MANIFEST.json'))['checks']))")}
-cd /verif
+HERE=$(cd "$(dirname "$0")/.." && pwd)
+cd $HERE
+IDS=${*:-$(python3 -c "import json;print(' '.join(c['property_id'] for c in json.load(open('MANIFEST.json'))['checks']))")}
 for c in $IDS; do
   t0=$(date +%s)
   VERIF_SEED=$SEED ./check $c --tier $TIER > /var/tmp/sweep.$c.$SEED.log 2>&1; rc=$?
